@@ -65,7 +65,7 @@ def QueryDeviceTypes(addr):
     if r.raw_value.as_integer == 254:
         return []
     assert r.raw_value.as_integer == 255
-    last_seen = 0
+    last_seen = -1
     result = []
     while True:
         r = yield QueryNextDeviceType(addr)
@@ -81,7 +81,8 @@ def QueryDeviceTypes(addr):
             # The gear is required to return device types in
             # ascending order, without repeats
             raise DALISequenceError("Device type received out of order")
-        result.append(r.raw_value.as_integer)
+        last_seen = r.raw_value.as_integer
+        result.append(last_seen)
 
 
 def QueryGroups(addr):
